@@ -704,6 +704,26 @@ pub fn workload(ctx: &mut Ctx) {
         let (x, y) = gen_mul_pair(&mut ctx.rng, nl, rl);
         ctx.exec(Case::new("boxed.mul").w(nl).w(rl).a(x).a(y), c_boxed_mul);
     }
+    // unequal lengths just above the Karatsuba threshold with saturated limb patterns: the
+    // trailing-limb rows (adc_mul_limbs) see all-ones partial sums and chained carries
+    for _ in 0..ctx.iters(60_000) {
+        let nl = 32 + ctx.rng.usize_below(9);
+        let rl = nl + 1 + ctx.rng.usize_below(4);
+        let pat = |r: &mut Rng, n: usize| -> Vec<u64> {
+            let mode = r.below(4);
+            (0..n)
+                .map(|i| match mode {
+                    0 => if i % 2 == 0 { u64::MAX } else { 0 },
+                    1 => if r.chance(1, 12) { 0 } else { u64::MAX },
+                    2 => *r.pick(&[0u64, u64::MAX, u64::MAX - 1, 1, 1 << 63]),
+                    _ => if r.chance(1, 6) { gn::limb(r) } else { u64::MAX },
+                })
+                .collect()
+        };
+        let (x, y) = (pat(&mut ctx.rng, nl), pat(&mut ctx.rng, rl));
+        let (x, y, nl, rl) = if ctx.rng.bool() { (x, y, nl, rl) } else { (y, x, rl, nl) };
+        ctx.exec(Case::new("boxed.mul").w(nl).w(rl).a(x).a(y), c_boxed_mul);
+    }
     for _ in 0..ctx.iters(60_000) {
         let nl = boxed_len(&mut ctx.rng, &special);
         let x = if ctx.rng.bool() { let rr = ctx.rng.below(3); gen_halves(&mut ctx.rng, nl, rr, 2) } else { gn::uint(&mut ctx.rng, nl) };
